@@ -5,6 +5,7 @@ import (
 	"hash/fnv"
 	"net"
 	"net/http/httptest"
+	"sync"
 	"strings"
 
 	"github.com/0xReLogic/Helios/internal/config"
@@ -457,4 +458,90 @@ func min(a, b int) int {
 		return a
 	}
 	return b
+}
+
+// ---------------------------------------------------------------- affinity under concurrent traffic (real parallelism)
+
+type c06Conc struct {
+	Strategy string `json:"strategy"`
+	N, G     int
+	Round    int `json:"round"`
+}
+
+func init() {
+	vh.AddPart("C06", "affinity-concurrent", "race", vh.Opts{Procs: 16, TimeoutS: 300, TimeoutSThorough: 1500},
+		func(e *vh.Env) []c06Conc {
+			var cs []c06Conc
+			for _, st := range []string{"ip_hash", "ip_hash_consistent"} {
+				for _, n := range []int{2, 5, 16} {
+					for r := 0; r < e.Pick(2, 8); r++ {
+						cs = append(cs, c06Conc{st, n, []int{4, 16, 64}[r%3], r})
+					}
+				}
+			}
+			return cs
+		},
+		func(e *vh.Env, c c06Conc, o *vh.Out) {
+			o.Need("concurrent_picks")
+			cfg := baseConfig(c.Strategy, nil)
+			for i := 0; i < c.N; i++ {
+				cfg.Backends = append(cfg.Backends, config.BackendConfig{Name: fmt.Sprintf("b%d", i), Address: "http://127.0.0.1:9", Weight: 1})
+			}
+			sys, err := startSys(cfg, nil, false)
+			if err != nil {
+				o.Inconcl("startSys: %v", err)
+				return
+			}
+			defer sys.Close()
+			pickFor := func(addr string, viaPeer bool) string {
+				r := httptest.NewRequest("GET", "/c", nil)
+				if viaPeer {
+					r.RemoteAddr = addr + ":4000"
+				} else {
+					r.Header.Set("X-Forwarded-For", addr)
+				}
+				if b := sys.LB.NextBackend(r); b != nil {
+					return b.Name
+				}
+				return ""
+			}
+			// the sequential mapping is the reference
+			addrs := make([]string, c.G)
+			want := make([]string, c.G)
+			for g := range addrs {
+				addrs[g] = fmt.Sprintf("10.%d.%d.%d", 20+c.Round, g/200, g%200+1)
+				want[g] = pickFor(addrs[g], false)
+			}
+			var wg sync.WaitGroup
+			bad := make([]string, c.G)
+			per := e.Pick(3000, 10000)
+			start := make(chan struct{})
+			for g := 0; g < c.G; g++ {
+				g := g
+				wg.Add(1)
+				go func() {
+					defer wg.Done()
+					<-start
+					for i := 0; i < per; i++ {
+						if got := pickFor(addrs[g], i%2 == 1); got != want[g] && bad[g] == "" {
+							bad[g] = got
+						}
+					}
+				}()
+			}
+			close(start)
+			wg.Wait()
+			o.Eval(1)
+			o.Obs("concurrent_picks", int64(c.G*per))
+			o.Distinct(vh.J(c))
+			for g, b := range bad {
+				if b != "" {
+					o.Viol("C06|affinity|split-under-concurrency|"+c.Strategy, fmt.Sprintf("%s n=%d: with %d clients picking concurrently, client %s was sent to %s although it maps to %s (backend set unchanged)", c.Strategy, c.N, c.G, addrs[g], b, want[g]), nil)
+					break
+				}
+			}
+			if c.Round == 0 && c.N == 5 {
+				o.Sample(map[string]any{"part": "affinity-concurrent", "case": c, "picks_per_client": per})
+			}
+		})
 }
